@@ -315,9 +315,47 @@ static void c04_branch(Buf *b, HSess *s, PolNv *n, int br, int dev) {
     if (dev == 4 && br != BR_P) c04_pol(b, s, CC_PolicyAuthValue, 0, NULL, 0);  /* an extra step after the OR */
     if (chance(30)) { uint8_t dg[32]; c04_getdigest(b, s, dg); }
 }
+/* ---- chains of the policy assertions that only extend the digest: the TPM's policyDigest (PolicyGetDigest) against the hash chain
+   the model builds from the parameters. Trial and real sessions; each chain uses a command at most once and at most one of the
+   commands that claim the session's cpHash slot (PolicyCpHash, PolicyNameHash, PolicyTemplate, PolicyDuplicationSelect). ---- */
+static void c04_trpol(HSess *s, uint32_t cc, uint32_t rc) { tr_begin("pol sh=%u cc=%x code=0 rc=%u", s->h, cc, rc); }
+static void c04_policy_chain(Buf *b, int trial) {
+    HSess s; if (c04_start(b, &s, RH_NULL, "", trial ? 3 : 1) != 0) return;
+    s.is_policy = 1;
+    int order[8] = {0, 1, 2, 3, 4, 5, 6, 7}; for (int i = 7; i > 0; i--) { int j = rnd(i + 1), t = order[i]; order[i] = order[j]; order[j] = t; }
+    int n = 2 + rnd(5), slot_used = 0;
+    for (int k = 0; k < n; k++) {
+        uint8_t d[32]; for (int q = 0; q < 32; q++) d[q] = rnd(256);
+        switch (order[k]) {
+        case 0: { uint8_t loc = chance(70) ? (uint8_t)(1u << rnd(5)) : chance(50) ? (uint8_t)(1 + rnd(31)) : (uint8_t)(32 + rnd(224));
+            cmd_begin(b, ST_NO_SESSIONS, 0x16F); b_u32(b, s.h); b_u8(b, loc); Rsp r = run(b); c04_trpol(&s, 0x16F, r.rc); fprintf(g_tr, " loc=%u", loc); tr_end(); break; }
+        case 1: { if (slot_used) break; slot_used = 1; uint32_t cc = (uint32_t[]){0x16E, 0x170, 0x190}[rnd(3)];
+            cmd_begin(b, ST_NO_SESSIONS, cc); b_u32(b, s.h); b_2b(b, d, 32); Rsp r = run(b); c04_trpol(&s, cc, r.rc); trhex("h", d, 32); tr_end(); break; }
+        case 2: { uint8_t w = rnd(2); cmd_begin(b, ST_NO_SESSIONS, 0x18F); b_u32(b, s.h); b_u8(b, w); Rsp r = run(b); c04_trpol(&s, 0x18F, r.rc); fprintf(g_tr, " w=%u", w); tr_end(); break; }
+        case 3: { cmd_begin(b, ST_NO_SESSIONS, 0x187); b_u32(b, s.h); Rsp r = run(b); c04_trpol(&s, 0x187, r.rc); tr_end(); break; }
+        case 4: { /* on a real session the comparison is evaluated: time >= 0 always holds; a trial session takes any */
+            int ol = trial ? 1 + rnd(8) : 8; uint8_t op8[8]; for (int q = 0; q < 8; q++) op8[q] = trial ? rnd(256) : 0;
+            uint16_t off = trial ? rnd(25 - ol + 1) : 0, eo = trial ? rnd(12) : 0x0007;
+            cmd_begin(b, ST_NO_SESSIONS, 0x16D); b_u32(b, s.h); b_2b(b, op8, ol); b_u16(b, off); b_u16(b, eo); Rsp r = run(b);
+            c04_trpol(&s, 0x16D, r.rc); trhex("operand", op8, ol); fprintf(g_tr, " offset=%u op=%u", off, eo); tr_end(); break; }
+        case 5: { if (slot_used) break; slot_used = 1; uint8_t on[34], pn[34]; on[0] = pn[0] = 0; on[1] = pn[1] = 0x0B; for (int q = 2; q < 34; q++) { on[q] = rnd(256); pn[q] = rnd(256); }
+            uint8_t inc = rnd(2);
+            cmd_begin(b, ST_NO_SESSIONS, 0x188); b_u32(b, s.h); b_2b(b, on, 34); b_2b(b, pn, 34); b_u8(b, inc); Rsp r = run(b);
+            c04_trpol(&s, 0x188, r.rc); trhex("obj", on, 34); trhex("parent", pn, 34); fprintf(g_tr, " include=%u", inc); tr_end(); break; }
+        case 6: { uint8_t ref[16]; int rl = rnd(17); for (int q = 0; q < rl; q++) ref[q] = rnd(256); uint8_t nm[4]; be32buf(nm, RH_ENDORSEMENT);
+            cmd_begin(b, ST_SESSIONS, CC_PolicySecret); b_u32(b, RH_ENDORSEMENT); b_u32(b, s.h); auth_pw(b, "", 0); b_u16(b, 0); b_u16(b, 0); b_2b(b, ref, rl); b_u32(b, 0); Rsp r = run(b);
+            c04_trpol(&s, CC_PolicySecret, r.rc); trhex("name", nm, 4); trhex("ref", ref, rl); tr_end(); break; }
+        default: { c04_pol(b, &s, CC_PolicyAuthValue, 0, NULL, 0); break; }
+        }
+        uint8_t dg[32]; if (chance(40)) c04_getdigest(b, &s, dg);
+    }
+    uint8_t dg[32]; c04_getdigest(b, &s, dg);
+    cmd_begin(b, ST_NO_SESSIONS, CC_FlushContext); b_u32(b, s.h); run(b); tr("sflush h=%u", s.h);
+}
 static void c04_policy_rounds(Buf *b, int rounds) {
     PolNv n; memset(&n, 0, sizeof n); n.idx = 0x01600010u; strcpy(n.auth, "pv1");
     HSess t, ps;
+    for (int k = 0; k < 4; k++) c04_policy_chain(b, k % 2);
     /* the four branch digests and the OR over them, computed by the TPM in a trial session and recomputed by the model */
     if (c04_start(b, &t, RH_NULL, "", 3) != 0) return;
     t.is_policy = 1;
